@@ -611,8 +611,8 @@ impl LyNative for IterReduce {
     let mut accumulator = args[1];
     let callable = args[2];
 
-    hooks.push_root(accumulator);
     hooks.push_root(callable);
+    hooks.push_root(accumulator);
 
     let mut iter = args[0].to_obj().to_enumerator();
 
@@ -621,6 +621,10 @@ impl LyNative for IterReduce {
       accumulator = hooks
         .call(callable, &[accumulator, current])
         .inspect_err(|_| hooks.pop_roots(2))?;
+
+      // keep the new accumulator alive while the iterator runs its own callbacks
+      hooks.pop_roots(1);
+      hooks.push_root(accumulator);
     }
 
     hooks.pop_roots(2);
